@@ -568,7 +568,7 @@ class Interp:
                         raise Malformed(f"FormSum of tensors of different shape {_shape(T)} {_shape(Tc)}")
                     T = add(T, Tc)
             if slots is None:
-                raise ModelGap("empty FormSum")
+                raise Malformed("empty FormSum")
             return slots, T
         if t is Action:
             left, right = o.ufl_operands
